@@ -350,29 +350,33 @@ func TestVerifC14FaultEnum(t *testing.T) {
 	names := []string{"J0", "J1", "J2", "J0new", "S0", "S1", "S2", "L0", "L1", "+4s", "+11s"}
 	stable3 := []gOp{{K: "join", Slot: 0, Sub: sub}, {K: "join", Slot: 1, Sub: sub}, {K: "join", Slot: 2, Sub: sub}, {K: "settle"}}
 	type start struct {
-		name  string
-		pre   []gOp
-		depth int
+		name   string
+		pre    []gOp
+		depth  int
+		faults []c14Fault
+	}
+	lost, applied, read := c14Fault{Writes: "lost"}, c14Fault{Writes: "applied"}, c14Fault{Reads: true}
+	kinds3, kinds4 := []c14Fault{lost}, []c14Fault{lost}
+	if r.Thorough() {
+		kinds3, kinds4 = []c14Fault{lost, applied, read}, []c14Fault{lost, applied}
 	}
 	starts := []start{
-		{"empty", nil, 3},
-		{"stable3", stable3, r.N(3, 4)},
+		{"empty", nil, 3, kinds3},
+		{"stable3", stable3, 3, kinds3},
 		// a stored PreparingRebalance generation that only the newcomer has joined
-		{"stable3+newcomer", append(append([]gOp(nil), stable3...), gOp{K: "join", Slot: 0, Sub: sub, Fresh: true}), r.N(3, 4)},
-	}
-	faults := []c14Fault{{Writes: "lost"}}
-	if r.Thorough() {
-		faults = append(faults, c14Fault{Writes: "applied"}, c14Fault{Reads: true})
+		{"stable3+newcomer", append(append([]gOp(nil), stable3...), gOp{K: "join", Slot: 0, Sub: sub, Fresh: true}), r.N(3, 4), kinds4},
 	}
 	total := 0
+	var shape []string
 	for _, st := range starts {
 		n := 1
 		for i := 0; i < st.depth; i++ {
 			n *= len(alphabet)
 		}
-		total += n * st.depth * len(faults)
+		total += n * st.depth * len(st.faults)
+		shape = append(shape, fmt.Sprintf("%s: length %d, fault kinds %v", st.name, st.depth, st.faults))
 	}
-	defer r.Finish(fmt.Sprintf("bounded-exhaustive single-fault enumeration: ALL sequences of length 3 (thorough: 4 from the two non-empty start states) over the alphabet %v, from the empty group, from a settled Stable group of 3 members and from that group after a newcomer's first join (a stored PreparingRebalance generation nobody else has joined), for 3 clients (session 10 s, rebalance timeout 3 s, cleanup 1 s), each run once per (position, fault kind) with exactly that step faulted, fault kinds %v: %d runs on the real coordinator on virtual time, judged after every step. ", names, faults, total) + c14FaultRule + " non-trivial = run in which a store call was failed and afterwards a >=2-member generation completed")
+	defer r.Finish(fmt.Sprintf("bounded-exhaustive single-fault enumeration: ALL sequences of a fixed length over the alphabet %v, from the empty group, from a settled Stable group of 3 members and from that group after a newcomer's first join (a stored PreparingRebalance generation nobody else has joined), for 3 clients (session 10 s, rebalance timeout 3 s, cleanup 1 s), each run once per (position, fault kind) with exactly that step faulted [%s]: %d runs on the real coordinator on virtual time, judged after every step. ", names, strings.Join(shape, "; "), total) + c14FaultRule + " non-trivial = run in which a store call was failed and afterwards a >=2-member generation completed")
 	count := 0
 	for _, st := range starts {
 		idx := make([]int, st.depth)
@@ -390,7 +394,7 @@ func TestVerifC14FaultEnum(t *testing.T) {
 						f := c14FOp{Op: alphabet[k]}
 						parts[i] = names[k]
 						if i == pos {
-							ff := faults[fk]
+							ff := st.faults[fk]
 							f.F = &ff
 							parts[i] += "[" + ff.String() + "]"
 						}
@@ -414,7 +418,7 @@ func TestVerifC14FaultEnum(t *testing.T) {
 					}
 					count++
 					// next: fault kind, then position, then sequence
-					if fk++; fk < len(faults) {
+					if fk++; fk < len(st.faults) {
 						continue
 					}
 					fk = 0
